@@ -14,7 +14,8 @@ from ..model import call_many
 from ..pool import guarded, run_cases
 
 THEOREMS = ["C12_outside_unchanged", "C12_created_equiv", "C12_class_target_equiv", "C12_idempotent_partial",
-            "C12_function_target_refuted", "C12_append_refuted"]
+            "C12_function_target_refuted", "C12_append_refuted", "C12_cmp_ast_only_equal", "C12_cmp_ast_reflexive",
+            "C12_cmp_ast_lists_same_length", "C12_cmp_ast_prefix_example"]
 KINDS = ("class", "function", "argparse_function")
 NAMES = {"class": "ConfigClass", "function": "train", "argparse_function": "set_cli_args"}
 BEFORE = ["import os\n\nCONSTANT_A = 1\n", "", "def helper_before(q, r=2):\n    return q\n", "class Unrelated(object):\n    z: int = 1\n",
@@ -248,6 +249,71 @@ def gen_case(rng):
             "before": {k: rng.choice(BEFORE) for k in KINDS}, "after": {k: rng.choice(AFTER) for k in KINDS}, "runs": rng.randint(1, 3)}
 
 
+def enc_obj(x):
+    """Python object tree -> the value Model/CmpAst.v reads"""
+    if isinstance(x, ast.AST):
+        return ["n", type(x).__name__, [enc_obj(getattr(x, f, "<Undefined>")) for f in x._fields]]
+    if isinstance(x, list):
+        return ["l", [enc_obj(i) for i in x]]
+    if isinstance(x, tuple):
+        return ["t", [enc_obj(i) for i in x]]
+    return ["a", type(x).__name__, repr(x)]
+
+
+def cmp_pairs(rng, n):
+    """pairs of ASTs: equal copies, one list cut to a proper prefix / extended, one constant / name / operator changed"""
+    out = []
+    for _ in range(n):
+        kind = rng.choice(["class", "function", "argparse_function"])
+        try:
+            src = emit_src(kind, drop_docs(gen_ir(rng)) if rng.random() < 0.5 else gen_ir(rng))
+        except Exception:  # noqa
+            continue
+        a = ast.parse(src).body[0]
+        b = copy.deepcopy(a)
+        how = rng.choice(["same", "same", "prefix", "extend", "constant", "name", "tuple", "swap"])
+        lists = [(n_, f) for n_ in ast.walk(b) for f in n_._fields if isinstance(getattr(n_, f, None), list) and getattr(n_, f)]
+        if how == "prefix" and lists:
+            n_, f = rng.choice(lists)
+            setattr(n_, f, getattr(n_, f)[:-1])
+        elif how == "extend" and lists:
+            n_, f = rng.choice(lists)
+            setattr(n_, f, getattr(n_, f) + [copy.deepcopy(getattr(n_, f)[-1])])
+        elif how == "constant":
+            cs = [n_ for n_ in ast.walk(b) if isinstance(n_, ast.Constant)]
+            if cs:
+                c = rng.choice(cs)
+                c.value = rng.choice([1, "1", True, None, 1.5, "x"]) if rng.random() < 0.7 else c.value
+        elif how == "name":
+            ns = [n_ for n_ in ast.walk(b) if isinstance(n_, ast.Name)]
+            if ns:
+                rng.choice(ns).id = rng.choice(["other", "int", "str"])
+        elif how == "tuple" and lists:
+            n_, f = rng.choice(lists)
+            setattr(n_, f, tuple(getattr(n_, f)))
+        elif how == "swap" and lists:
+            n_, f = rng.choice(lists)
+            v = getattr(n_, f)
+            if len(v) > 1:
+                setattr(n_, f, [v[-1]] + v[1:-1] + [v[0]])
+        out.append((how, a, b))
+    return out
+
+
+def cmp_correspondence(rng, n):
+    from cdd.shared.ast_utils import cmp_ast
+    pairs = cmp_pairs(rng, n)
+    impl = [bool(cmp_ast(a, b)) for _h, a, b in pairs]
+    model = call_many("cmp_ast", [[enc_obj(a), enc_obj(b)] for _h, a, b in pairs])
+    bad, dist = [], {}
+    for (how, a, b), i, m in zip(pairs, impl, model):
+        k = "%s:%s" % (how, i)
+        dist[k] = dist.get(k, 0) + 1
+        if i != m:
+            bad.append({"how": how, "impl": i, "model": m, "a": ast.unparse(a)[:300], "b": ast.dump(b)[:300]})
+    return len(pairs), bad, dist
+
+
 def worker(batch):
     out = {"n": 0, "ran": 0, "items": [], "corr": [], "files": 0}
     for c in batch:
@@ -304,6 +370,12 @@ def collect(ctx, n, _unused=0):
 def run(ctx):
     status = coqbuild.prove("C12", THEOREMS)
     agg, items, corr, cases = collect(ctx, 60 if ctx.quick else 2400)
+    n_cmp, cmp_bad, cmp_dist = cmp_correspondence(ctx.rng, 300 if ctx.quick else 6000)
+    for b in cmp_bad[:3]:
+        # a disagreement is itself a concrete input on which cmp_ast misjudges equality
+        ctx.item("C12/cmp_ast/" + ("equal-trees-reported-different" if b["model"] else "different-trees-reported-equal") + "/" + b["how"],
+                 {"stage": "cdd.shared.ast_utils.cmp_ast on generated AST pairs", "clause": "the change detector answers True exactly for equal trees",
+                  "input": b, "detail": b})
     for cls, det, c in items:
         ctx.item(cls, {"stage": "`cdd sync` on generated file triples (cdd.__main__.main)", "clause": cls,
                        "input": {"truth": c["truth"], "states": c["states"], "runs": c["runs"], "gold": T.jsonable(c["gold"])} if c else None,
@@ -326,6 +398,7 @@ def run(ctx):
                 "unrelated definitions before and after, x truth in {class, function, argparse_function} x 1..3 consecutive runs of "
                 "cdd sync; non-trivial = all runs completed",
         "completed": agg["ran"], "target_files_compared_with_model": agg["files"], "model_disagreements": len(corr),
+        "cmp_ast_pairs_compared_with_model": n_cmp, "cmp_ast_disagreements": len(cmp_bad), "cmp_ast_pair_kinds": cmp_dist,
         "traces_validated_against_impl": agg["files"],
         "samples": [{"truth": cases[0]["truth"], "states": cases[0]["states"], "runs": cases[0]["runs"]}],
         "build": {k: status[k] for k in ("build_s", "forbidden")},
